@@ -162,8 +162,18 @@ def run(tier, seed):
         p.value.string_value = v
       else:
         p.value.number_value = float(v)
+    # half of the studies are read as a client reads them: through the wire form of the study configuration (conditions
+    # with several parent values are rebuilt there from one declaration)
+    sc_used = sc
+    if it % 2 == 1:
+      try:
+        sc_used = svz.StudyConfig.from_proto(sc.to_proto())
+        rep.count('config_through_proto')
+      except Exception as e:  # pylint: disable=broad-except
+        viol('StudyConfig.from_proto(to_proto()) raised %s on a valid search space' % type(e).__name__, {'space': repr(space)[:500], 'error': str(e)[:200]})
+        continue
     try:
-      got = sc.trial_parameters(proto)
+      got = sc_used.trial_parameters(proto)
       res = ('ok', got)
     except ValueError:
       res = ('err', None)
@@ -227,6 +237,54 @@ def run(tier, seed):
   rep.disagreements += len(bad)
   for i in bad[:3]:
     broke = ((broke or '') + ' correspondence StudyConfig.trial_parameters vs model on %r;' % (objs[i],))
+  # ---- one child declared once under SEVERAL parent values (factory(children=...) and the wire form of such a condition)
+  for it in range(N // 6):
+    pk = r.choice(['cat', 'disc', 'int'])
+    pvals = {'cat': ['a', 'b', 'c', 'd'], 'disc': [1.0, 2.0, 4.0, 8.0], 'int': [1, 2, 3, 4]}[pk]
+    under = sorted(r.sample(pvals, r.choice([2, 2, 3])), key=pvals.index)
+    ck_ = r.choice(['float', 'cat', 'int'])
+    child = {'float': vz.ParameterConfig.factory('child', bounds=(0.0, 1.0)),
+             'cat': vz.ParameterConfig.factory('child', feasible_values=['u', 'v']),
+             'int': vz.ParameterConfig.factory('child', bounds=(1, 3))}[ck_]
+    cval = {'float': 0.5, 'cat': 'u', 'int': 2}[ck_]
+    if r.random() < 0.4:   # a grandchild under two of the child's values
+      if ck_ == 'cat':
+        child = vz.ParameterConfig.factory('child', feasible_values=['u', 'v'], children=[(['u', 'v'], vz.ParameterConfig.factory('grand', bounds=(0.0, 1.0)))])
+    kw = {'bounds': (1, 4)} if pk == 'int' else {'feasible_values': pvals}
+    try:
+      parent = vz.ParameterConfig.factory('parent', children=[(under, child)], **kw)
+      sc = svz.StudyConfig()
+      sc.search_space.add(parent)
+      sc.metric_information.append(vz.MetricInformation(name='m', goal=vz.ObjectiveMetricGoal.MAXIMIZE))
+      configs = [('built', sc), ('through_proto', svz.StudyConfig.from_proto(sc.to_proto()))]
+    except Exception as e:  # pylint: disable=broad-except
+      viol('a condition with several parent values could not be declared / sent over the wire: %s' % type(e).__name__,
+           {'parent_values': under, 'error': str(e)[:200]})
+      continue
+    for how, cfg in configs:
+      for pv in pvals:
+        params = {'parent': pv}
+        if pv in under:
+          params['child'] = cval
+          if 'grand' in [c.name for c in child.traverse()] and cval in ('u', 'v'):
+            params['grand'] = 0.25
+        proto = study_pb2.Trial(id='1')
+        for k_, v in params.items():
+          p_ = proto.parameters.add(parameter_id=k_)
+          if isinstance(v, str):
+            p_.value.string_value = v
+          else:
+            p_.value.number_value = float(v)
+        rep.case({'multi_valued_condition': under, 'parent': pv, 'config': how}, True)
+        try:
+          got = cfg.trial_parameters(proto)
+        except Exception as e:  # pylint: disable=broad-except
+          viol('trial_parameters refused a valid trial of a space whose child is declared under several parent values (%s)' % type(e).__name__,
+               {'config': how, 'parent_values_of_child': under, 'trial': params, 'error': str(e)[:200]})
+          continue
+        if set(got) != set(params):
+          viol('trial_parameters does not present exactly the trial\'s parameters for a multi-valued condition',
+               {'config': how, 'parent_values_of_child': under, 'trial': params, 'presented': repr(got)})
   C.settle_broken(rep, broke, concrete)
   return rep.finish()
 
